@@ -33,7 +33,7 @@ def run_alphabet(rep, alphabet, depth, d):
     out = os.path.join(d, "out_%s.ndjson" % alphabet)
     nv.write_ndjson(inp, [{"id": i, "prelude": meta["prelude"], "modules": meta["modules"], "probes": meta["probes"],
                            "steps": [s["text"] for s in c["steps"]]} for i, c in enumerate(cases)])
-    nv.harness(["session-run", "--cases", inp, "--out", out])
+    nv.harness("nv-session", ["session-run", "--cases", inp, "--out", out])
     results = nv.read_ndjson_text(open(out).read())
     failing = 0
     for c, r in zip(cases, results):
@@ -62,7 +62,7 @@ def run_alphabet(rep, alphabet, depth, d):
 
 def run(tier, seed):
     rep = nv.Report(PROP, tier, seed, "model_checking")
-    nv.build_harness()
+    nv.build_harness(["nv-session"])
     d = nv.scratch("c06")
     if tier == "quick":
         plan = [("small", 2), ("names", 2), ("imports", 2)]
